@@ -36,6 +36,14 @@ def json_fields_ok(ds, raw_body):
                     bad.append("agencyUuid")
                 if s["mode"] != l3.mode_name(ln[2]):
                     bad.append("mode %s" % s["mode"])
+                # the display strings of the objects named (written by l3.cache_texts)
+                nid0 = l3.id_of_uuid(s["nodeUuid"])
+                for key, want in (("agencyAcronym", "a%d" % ln[1]), ("agencyName", "agency %d" % ln[1]), ("lineShortname", "L%d" % ln[0]),
+                                  ("lineLongname", "line %d" % ln[0]), ("nodeName", "n%d" % nid0), ("nodeCode", "%d" % nid0)):
+                    if s.get(key) != want:
+                        bad.append("%s %r (expected %r)" % (key, s.get(key), want))
+                if not s.get("modeName"):
+                    bad.append("modeName empty")
                 nid = l3.id_of_uuid(s["nodeUuid"])
                 seq = s["stopSequenceInTrip"]
                 if not (1 <= seq <= len(p[2])) or p[2][seq - 1] != nid:
